@@ -56,6 +56,7 @@ func main() {
 	safety := flag.Bool("safety", false, "generate panic-freedom obligations")
 	tmp := flag.String("tmp", "/verif/out/tmp", "scratch directory for queries")
 	keep := flag.String("keep", "", "directory where failing/unknown queries are kept")
+	knownFile := flag.String("known", "", "JSON list of known findings (obligation tag + region) to carve out")
 	lemmasOnly := flag.Bool("lemmas-only", false, "only pure lemmas")
 	listOnly := flag.Bool("list", false, "list functions with contracts and exit")
 	dumpPaths := flag.Bool("v", false, "verbose")
@@ -107,6 +108,14 @@ func main() {
 		}
 	}
 	eng.resolveSentinels()
+	if *knownFile != "" {
+		if data, err := os.ReadFile(*knownFile); err == nil {
+			if err := json.Unmarshal(data, &eng.known); err != nil {
+				fmt.Fprintln(os.Stderr, "known findings:", err)
+				os.Exit(2)
+			}
+		}
+	}
 
 	// which functions
 	var want []string
